@@ -295,6 +295,16 @@ def integrateSeq (f : Fld) : List String → M Res
     | .ok (.vals v) => if ds.isEmpty then .ok (.vals v) else .error .type
     | .ok (.field g) => integrateSeq g ds
 
+/-- a chain of directional integrals, each cumulative or not:
+`f.integrate(d1, cumulative=c1).integrate(d2, cumulative=c2)…` -/
+def integrateChain (f : Fld) : List (String × Bool) → M Res
+  | [] => .ok (.field f)
+  | (d, cum) :: rest =>
+    match integrate f (.name d) cum with
+    | .error e => .error e
+    | .ok (.vals v) => if rest.isEmpty then .ok (.vals v) else .error .type
+    | .ok (.field g) => integrateChain g rest
+
 /-- averaging direction by direction: `f.mean(d1).mean(d2)…` (bare names; each step returns a
 field on the reduced mesh) -/
 def meanSeq (f : Fld) : List String → M Res
